@@ -98,7 +98,7 @@ public:
             rss += r2(bin).sum();
         }
 
-        max_kbest = max_kbest < 1 ? bins : max_kbest;
+        max_kbest = std::min(bins, max_kbest < 1 ? bins : max_kbest);
         for (tensor_size_t kbest = 1; kbest <= max_kbest; ++kbest)
         {
             rss += mapping[static_cast<size_t>(kbest - 1)].first;
